@@ -106,6 +106,9 @@ pub fn mix_for(focus: &str) -> Mix {
             m.get = 3;
         }
         "C11" | "C12" => {
+            // same-value conditional writes: no visible change of the value, but of the version
+            m.cas_rewrite = 4;
+            m.cas_cycle = 3;
             m.set = 20;
             m.cset = 8;
             m.delete = 6;
